@@ -39,7 +39,7 @@ def limit_three_connections_k1(mc: int, p1: int, t1: int) -> bool:
     return k._cell([1, 1, 1], mc, [(p1, t1)], "C41")
 
 
-@cond(q=220, t=3000, tiers=("thorough",), engine="coop", encoded=ENCODED, stubs=ASSUMPTIONS, bound=k._CB % ("connection connection", 2), signature=k._cell_sig([1, 1], "C41"), replay=k._real_replay([1, 1], "C41"))
+@cond(q=220, t=6500, tiers=("thorough",), engine="coop", encoded=ENCODED, stubs=ASSUMPTIONS, bound=k._CB % ("connection connection", 2), signature=k._cell_sig([1, 1], "C41"), replay=k._real_replay([1, 1], "C41"))
 def limit_two_connections_k2(mc: int, p1: int, t1: int, p2: int, t2: int) -> bool:
     """
     pre: 0 <= mc <= 2 and 0 <= p1 < p2 <= 110 and 0 <= t1 <= 4 and 0 <= t2 <= 4
